@@ -9,6 +9,7 @@ import JominiModel.Proofs.WriterParse
 import JominiModel.Spec.WriterArrays
 import JominiModel.Proofs.WriterArrays
 import JominiModel.Proofs.TextTapeFaithful3
+import JominiModel.Proofs.WriterGenParse
 /-
 C15 — Well-formed sequences of writer calls parse back to exactly what was written.
 Only property theorems live here; helper lemmas are in `Proofs/Writer.lean`, reference
@@ -415,6 +416,47 @@ example : TextTape.parse (run (acalls [⟨.unq [97], none, .arr true (.i64 1) [.
          .unquoted ⟨3, [121, 101, 115]⟩] false := by
   decide +kernel
 
+/-- `C15_lexemes` for the general container fragment: call lists that write root fields whose values
+are scalars, empty containers, objects, arrays of scalars, arrays of containers (objects, arrays,
+empty containers), and containers with a header (`write_header`), nested to any depth, with every
+choice of start call: objects through `write_object_start`, or through `write_array_start` /
+`write_start` followed by a key and an explicit operator (`GVal.Opened`: that is how the container
+resolves to an object); arrays through `write_array_start` or `write_start`.  The bytes are exactly
+`gtextRoot`: fields on their own indented lines, array elements after a scalar behind one space and
+after a container on a new indented line, `{ }` for every empty container, `key<sep>header {`.
+For every indent byte and factor. -/
+theorem C15_lexemes_containers (fs : GFields) (ho : fs.Opened) (c : UInt8) (f : Nat) :
+    (run (gcallsF fs) (State.init c f)).1.out = gtextRoot c f fs :=
+  lexemes_gen fs ho c f
+
+/-- …and they parse back (writer model → `TextTape.parse`, through the text-tape slice's
+`faithful_tree`) to exactly the described tape (`ktapeF` of the content): keys, operators, scalars,
+`Object{end}` / `Array{end}` / `End` links, `Header` tokens — whatever start call opened a
+container (`write_start` resolves to an object exactly when an operator follows the first scalar,
+to an array otherwise).  `GFields.Good`: caller-supplied unquoted scalars and headers are scalars
+of the format; an object does not begin with a header field; the first element of an array of
+containers and the body of a header are non-empty (the parser drops a leading `{}` as a ghost
+object — the documented non-round-trippable shapes).  Indent byte blank, no BOM bytes first. -/
+theorem C15_parse_back_containers (fs : GFields) (c : UInt8) (f : Nat) (hc : TextTape.isBlank c = true)
+    (ho : fs.Opened) (hg : fs.Good)
+    (hb : TextTape.hasBom (run (gcallsF fs) (State.init c f)).1.out = false) :
+    ∃ T, TextTape.parse (run (gcallsF fs) (State.init c f)).1.out = .ok T false ∧
+      T.map TextTape.Tok.erase = TextTape.ktapeF (gcontentF fs) 0 := by
+  rw [C15_lexemes_containers fs ho] at hb ⊢
+  exact WriterParse.parse_gtextRoot c f hc fs hg hb
+
+/-- `a={ {b=1} 2 { } }` opened with `write_start`, the inner object with `write_array_start` + `=`;
+`c=rgb { 1 2 }` through `write_header`: the tape computed by the two models -/
+example : TextTape.parse (run (gcallsF (.cons (.unq [97]) none
+      (.arrC true (.obj .arrayStart (.cons (.unq [98]) (some .eq) (.scal (.i64 1)) .nil))
+        (.cons (.scal (.i64 2)) (.cons (.empty .start) .nil)))
+      (.hdr (.unq [99]) none [114, 103, 98] (.arrS false (.i64 1) (.cons (.scal (.i64 2)) .nil)) .nil)))
+    (State.init 32 1)).1.out =
+    .ok [.unquoted ⟨39, [97]⟩, .array 9 false, .object 5 false, .unquoted ⟨30, [98]⟩, .unquoted ⟨28, [49]⟩, .endTok 2,
+         .unquoted ⟨22, [50]⟩, .array 8 false, .endTok 7, .endTok 1, .unquoted ⟨14, [99]⟩, .header ⟨12, [114, 103, 98]⟩,
+         .array 15 false, .unquoted ⟨5, [49]⟩, .unquoted ⟨3, [50]⟩, .endTok 12] false := by
+  decide +kernel
+
 /-
 Growth theorem, NOT proved in general (full statement kept; `C15_lexemes_partial` is its flat instance):
 
@@ -429,9 +471,13 @@ Growth theorem, NOT proved in general (full statement kept; `C15_lexemes_partial
   Proved so far: flat documents (`C15_lexemes_flat`, `C15_parse_back_flat`) and nested objects
   to any depth (`C15_lexemes_nested`, `C15_parse_back_nested`), root-level arrays of scalars
   and empty containers with every start flavour (`C15_lexemes_arrays`, `C15_parse_back_arrays`),
-  the typed scalar calls in every scalar position (`C15_typed_scalars_valid`).  Missing: arrays
-  nested in containers and arrays of containers, objects opened with `write_start` /
-  `write_array_start` + operator, headers / rgb, and `write_binary` forwarding.  Until then the clause is decided on the real code: the harness re-parses the
+  the typed scalar calls in every scalar position (`C15_typed_scalars_valid`).  and the general container fragment
+  (`C15_lexemes_containers`, `C15_parse_back_containers`: objects, arrays of scalars and of
+  containers, empty containers, headers, any nesting, every start flavour).  Missing:
+  `write_rgb` and `write_binary` forwarding (both are fixed call sequences of the above), floats,
+  mixed mode (`start_mixed_mode`), and the shapes the format cannot express (first element of an array
+  an empty container, header with empty body, header / scalar directly followed by a container
+  inside an array).  Until then the clause is decided on the real code: the harness re-parses the
   output of every well-formed call list with `TextTape::from_slice` and compares it with an
   independent transcription of the described document (oracle kinds `wf-parse-back`,
   `wf-output-does-not-parse`, `wf-state`).
